@@ -616,6 +616,13 @@ def _mk_dcw(has_cache):
     C.methods = {'__del__': [Variant('with-cache' if has_cache else 'after-refused-construction',
                                      post=_dcw_del_post(has_cache), hooks=_disk_hooks(), props=('C11',))]}
     if has_cache:
+        # the last reference may be dropped at interpreter shutdown (a dataset held by a function default,
+        # a module global): __del__ then runs while imports fail
+        h = _disk_hooks()
+        h['imports_may_fail'] = True
+        C.methods['__del__'].append(Variant('with-cache,at-interpreter-shutdown', post=_dcw_del_post(True), hooks=h,
+                                            props=('C11',)))
+    if has_cache:
         C.methods['__getitem__'] = [Variant('int', params={'item': 'int'}, post=_dk_get_post, hooks=_dk_hooks(),
                                             props=('C11',), inline=('__getitem__',))]
         C.methods['__setitem__'] = [Variant('int', params={'key': 'int', 'value': 'obj'}, post=_dk_set_post,
